@@ -86,13 +86,23 @@ Proof.
     inversion E; subst. constructor; eauto.
 Qed.
 
-(* ================================================================ the model only builds good trees *)
+(* ================================================================ the model only builds trees satisfying any predicate [G] closed under the constructors json/mod.rs uses *)
 Section Good.
   Variable dec : bytes -> bytes.
   Variable dbg : bool.
   Variable o : options.
   Variable t : ttape.
   Hypothesis DV : forall raw, valid_utf8 (dec raw) = true.
+  Variable G : json -> Prop.
+  Hypothesis G_null : G JNull.
+  Hypothesis G_str : forall s, valid_utf8 s = true -> G (JStr s).
+  Hypothesis G_arr : forall l, Forall G l -> G (JArr l).
+  Hypothesis G_obj : forall l, Forall (fun kv => valid_utf8 (fst kv) = true /\ G (snd kv)) l -> G (JObj l).
+  (* serialize_scalar is only reached when the narrowing option allows it *)
+  Hypothesis G_scalar : type_narrowing o <> NarrowNone -> forall v j, serialize_scalar dec t v = Ok j -> G j.
+
+  Lemma G_obj1 : forall k j, valid_utf8 k = true -> G j -> G (JObj [(k, j)]).
+  Proof. intros k j K J. apply G_obj. constructor; [split; auto|constructor]. Qed.
 
   Lemma op_symbol_valid : forall p, valid_utf8 (op_symbol p) = true.
   Proof. destruct p; reflexivity. Qed.
@@ -115,45 +125,32 @@ Section Good.
   Lemma unwrap_ok : forall {A} site (x : outcome A) a, unwrap site x = Ok a -> x = Ok a.
   Proof. intros A site x a H. destruct x; cbn [unwrap] in H; try discriminate; auto. Qed.
 
-  Lemma serialize_scalar_good : forall v j, serialize_scalar dec t v = Ok j -> good j.
-  Proof.
-    intros v j H. pose proof H as H0. unfold serialize_scalar in H.
-    destruct (unwrap P_scalar_unwrap (read_scalar t v)) as [s| | | |] eqn:RS; cbn [obind] in H; try discriminate.
-    apply unwrap_ok in RS. pose proof (narrowing_spec dec t v s j RS H0) as NS.
-    destruct j; try contradiction.
-    - apply good_bool.
-    - apply good_i64. tauto.
-    - apply good_u64. tauto.
-    - apply good_f64.
-    - apply good_str. destruct NS as (_ & _ & R). eapply read_str_valid; eauto.
-  Qed.
-
   Lemma str_leaf_good : forall v j,
-    (do x <- unwrap P_str_unwrap (read_str dec t v); Ok (JStr x)) = Ok j -> good j.
+    (do x <- unwrap P_str_unwrap (read_str dec t v); Ok (JStr x)) = Ok j -> G j.
   Proof.
     intros v j H. destruct (unwrap P_str_unwrap (read_str dec t v)) as [x| | | |] eqn:E; cbn [obind] in H; try discriminate.
-    inversion H; subst. apply good_str. apply unwrap_ok in E. eapply read_str_valid; eauto.
+    inversion H; subst. apply G_str. apply unwrap_ok in E. eapply read_str_valid; eauto.
   Qed.
 
   Section Open.
     Variable rec : nat -> outcome json.
-    Hypothesis HR : forall a j, rec a = Ok j -> good j.
+    Hypothesis HR : forall a j, rec a = Ok j -> G j.
 
-    Lemma opvalue_good : forall ov j, ser_opvalue rec ov = Ok j -> good j.
+    Lemma opvalue_good : forall ov j, ser_opvalue rec ov = Ok j -> G j.
     Proof.
       intros [op v] j H. unfold ser_opvalue in H. cbn [fst snd] in H. destruct op as [p|]; [|eauto].
       destruct (rec v) as [j'| | | |] eqn:R; cbn [obind] in H; try discriminate.
-      inversion H; subst. apply good_obj1; eauto using op_name_valid.
+      inversion H; subst. apply G_obj1; eauto using op_name_valid.
     Qed.
 
-    Lemma single_good : forall a op v j, ser_single dec t rec a op v = Ok j -> good j.
+    Lemma single_good : forall a op v j, ser_single dec t rec a op v = Ok j -> G j.
     Proof.
       intros a op v j H. unfold ser_single in H.
       destruct (read_str dec t a) as [x|e| | |] eqn:RS; cbn [obind] in H; try discriminate.
       - destruct (ser_opvalue rec (if op_is_equal op then None else Some op, v)) as [j'| | | |] eqn:OV; cbn [obind] in H; try discriminate.
-        inversion H; subst. apply good_obj1; [eapply read_str_valid; eauto|eapply opvalue_good; eauto].
+        inversion H; subst. apply G_obj1; [eapply read_str_valid; eauto|eapply opvalue_good; eauto].
       - destruct (ser_opvalue rec (if op_is_equal op then None else Some op, v)) as [j'| | | |] eqn:OV; cbn [obind] in H; try discriminate.
-        inversion H; subst. apply good_obj1; [reflexivity|eapply opvalue_good; eauto].
+        inversion H; subst. apply G_obj1; [reflexivity|eapply opvalue_good; eauto].
     Qed.
 
     (* the three shapes one step of the window can take *)
@@ -193,7 +190,7 @@ Section Good.
       left. exact H.
     Qed.
 
-    Lemma window_good : forall n l js, length l <= n -> ser_window dec t rec l = Ok js -> Forall good js.
+    Lemma window_good : forall n l js, length l <= n -> ser_window dec t rec l = Ok js -> Forall G js.
     Proof.
       induction n as [|n IH]; intros l js L H.
       - destruct l; [cbn in H; inversion H; constructor|cbn in L; lia].
@@ -204,25 +201,25 @@ Section Good.
         + constructor; [eapply single_good; eauto|apply (IH rest'); [cbn [length] in L; lia|exact R]].
     Qed.
 
-    Lemma inner_array_good : forall r j, ser_inner_array dec t rec r = Ok j -> good j.
+    Lemma inner_array_good : forall r j, ser_inner_array dec t rec r = Ok j -> G j.
     Proof.
       intros r j H. unfold ser_inner_array in H.
       destruct (values_all t r) as [vs| | | |]; cbn [obind] in H; try discriminate.
       destruct (ser_window dec t rec vs) as [js| | | |] eqn:W; cbn [obind] in H; try discriminate.
-      inversion H; subst. apply good_arr. eapply window_good; eauto.
+      inversion H; subst. apply G_arr. eapply window_good; eauto.
     Qed.
 
-    Lemma array_builder_good : forall r j, ser_array_builder dec o t rec r = Ok j -> good j.
+    Lemma array_builder_good : forall r j, ser_array_builder dec o t rec r = Ok j -> G j.
     Proof.
       intros r j H. unfold ser_array_builder in H.
       destruct (ser_inner_array dec t rec r) as [inner| | | |] eqn:I; cbn [obind] in H; try discriminate.
-      pose proof (inner_array_good _ _ I) as G.
+      pose proof (inner_array_good _ _ I) as GI.
       destruct (duplicate_keys o); inversion H; subst; auto.
-      apply good_obj. constructor; [split; [reflexivity|apply good_str; reflexivity]|].
-      constructor; [split; [reflexivity|exact G]|constructor].
+      apply G_obj. constructor; [split; [reflexivity|apply G_str; reflexivity]|].
+      constructor; [split; [reflexivity|exact GI]|constructor].
     Qed.
 
-    Lemma remainder_good : forall last e x, ser_remainder dec t rec last e = Ok (Some x) -> good x.
+    Lemma remainder_good : forall last e x, ser_remainder dec t rec last e = Ok (Some x) -> G x.
     Proof.
       intros last e x H. unfold ser_remainder in H.
       destruct (array_is_empty t (remainder t last e)) as [b| | | |]; cbn [obind] in H; try discriminate.
@@ -231,9 +228,9 @@ Section Good.
       inversion H; subst. eapply inner_array_good; eauto.
     Qed.
 
-    Definition entry_good (kv : bytes * json) : Prop := valid_utf8 (fst kv) = true /\ good (snd kv).
+    Definition entry_good (kv : bytes * json) : Prop := valid_utf8 (fst kv) = true /\ G (snd kv).
 
-    Lemma rem_entry_good : forall rem, (forall x, rem = Some x -> good x) ->
+    Lemma rem_entry_good : forall rem, (forall x, rem = Some x -> G x) ->
       Forall entry_good (match rem with Some j => [(s_remainder, j)] | None => [] end).
     Proof.
       intros [x|] H; constructor; [|constructor]. split; [reflexivity|]. cbn [snd]. auto.
@@ -246,12 +243,12 @@ Section Good.
       inversion H; subst. split; cbn [fst snd]; [apply key_string_valid|eapply opvalue_good; eauto].
     Qed.
 
-    Lemma field_pair_good : forall fd e, ser_field_pair dec rec fd = Ok e -> good e.
+    Lemma field_pair_good : forall fd e, ser_field_pair dec rec fd = Ok e -> G e.
     Proof.
       intros fd e H. unfold ser_field_pair in H.
       destruct (ser_opvalue rec (f_op fd, f_val fd)) as [j| | | |] eqn:OV; cbn [obind] in H; try discriminate.
-      inversion H; subst. apply good_arr.
-      constructor; [apply good_str; apply key_string_valid|]. constructor; [eapply opvalue_good; eauto|constructor].
+      inversion H; subst. apply G_arr.
+      constructor; [apply G_str; apply key_string_valid|]. constructor; [eapply opvalue_good; eauto|constructor].
     Qed.
 
     Lemma group_good : forall g e, ser_group dec rec g = Ok e -> entry_good e.
@@ -260,49 +257,51 @@ Section Good.
       assert (MANY : forall many, (do js <- omapM (ser_opvalue rec) many; Ok (key_string dec (g_key g), JArr js)) = Ok e -> entry_good e).
       { intros many M. destruct (omapM (ser_opvalue rec) many) as [js| | | |] eqn:OM; cbn [obind] in M; try discriminate.
         inversion M; subst. split; cbn [fst snd]; [apply key_string_valid|].
-        apply good_arr. eapply omapM_good; [|exact OM]. intros a y Y. eapply opvalue_good; eauto. }
+        apply G_arr. eapply omapM_good; [|exact OM]. intros a y Y. eapply opvalue_good; eauto. }
       destruct (g_vals g) as [|one [|two more]]; try (apply MANY in H; exact H).
       destruct (ser_opvalue rec one) as [j| | | |] eqn:OV; cbn [obind] in H; try discriminate.
       inversion H; subst. split; cbn [fst snd]; [apply key_string_valid|eapply opvalue_good; eauto].
     Qed.
 
-    Lemma object_builder_good : forall r j, ser_object_builder dec dbg o t rec r = Ok j -> good j.
+    Lemma object_builder_good : forall r j, ser_object_builder dec dbg o t rec r = Ok j -> G j.
     Proof.
       intros r j H. unfold ser_object_builder in H. destruct (duplicate_keys o).
       - destruct (field_groups dbg t r) as [[[gs gh] last]| | | |]; cbn [obind] in H; try discriminate.
         destruct (omapM (ser_group dec rec) gs) as [es| | | |] eqn:OM; cbn [obind] in H; try discriminate.
         destruct (ser_remainder dec t rec last (o_end r)) as [rem| | | |] eqn:RM; cbn [obind] in H; try discriminate.
-        inversion H; subst. apply good_obj. apply Forall_app. split.
+        inversion H; subst. apply G_obj. apply Forall_app. split.
         + eapply omapM_good; [|exact OM]. intros a y Y. eapply group_good; eauto.
         + apply rem_entry_good. intros x ->. eapply remainder_good; eauto.
       - destruct (fields_all dbg t r) as [[fs last]| | | |]; cbn [obind] in H; try discriminate.
         destruct (omapM (ser_field dec rec) fs) as [es| | | |] eqn:OM; cbn [obind] in H; try discriminate.
         destruct (ser_remainder dec t rec last (o_end r)) as [rem| | | |] eqn:RM; cbn [obind] in H; try discriminate.
-        inversion H; subst. apply good_obj. apply Forall_app. split.
+        inversion H; subst. apply G_obj. apply Forall_app. split.
         + eapply omapM_good; [|exact OM]. intros a y Y. eapply field_good; eauto.
         + apply rem_entry_good. intros x ->. eapply remainder_good; eauto.
       - destruct (fields_all dbg t r) as [[fs last]| | | |]; cbn [obind] in H; try discriminate.
         destruct (omapM (ser_field_pair dec rec) fs) as [es| | | |] eqn:OM; cbn [obind] in H; try discriminate.
         destruct (ser_remainder dec t rec last (o_end r)) as [rem| | | |] eqn:RM; cbn [obind] in H; try discriminate.
-        inversion H; subst. apply good_obj.
-        constructor; [split; [reflexivity|apply good_str; reflexivity]|].
+        inversion H; subst. apply G_obj.
+        constructor; [split; [reflexivity|apply G_str; reflexivity]|].
         constructor; [split; [reflexivity|]|constructor]. cbn [snd].
-        apply good_arr. apply Forall_app. split.
+        apply G_arr. apply Forall_app. split.
         + eapply omapM_good; [|exact OM]. intros a y Y. eapply field_pair_good; eauto.
         + destruct rem as [x|]; constructor; [|constructor]. eapply remainder_good; eauto.
     Qed.
 
-    Lemma step_good : forall v j, ser_value_step dec dbg o t rec v = Ok j -> good j.
+    Lemma step_good : forall v j, ser_value_step dec dbg o t rec v = Ok j -> G j.
     Proof.
       intros v j H. unfold ser_value_step in H.
       destruct (value_token t v) as [k| | | |]; cbn [obind] in H; try discriminate.
-      destruct k; try (inversion H; subst; apply good_null).
+      destruct k; try (inversion H; subst; apply G_null).
       - destruct (unwrap P_read_array_unwrap (read_array t v)) as [r| | | |]; cbn [obind] in H; try discriminate.
         eapply array_builder_good; eauto.
       - destruct (unwrap P_read_object_unwrap (read_object t v)) as [r| | | |]; cbn [obind] in H; try discriminate.
         eapply object_builder_good; eauto.
-      - destruct (type_narrowing o); eauto using serialize_scalar_good, str_leaf_good.
-      - destruct (type_narrowing o); eauto using serialize_scalar_good, str_leaf_good.
+      - destruct (type_narrowing o) eqn:TN; eauto using str_leaf_good;
+          exact (G_scalar ltac:(discriminate) _ _ H).
+      - destruct (type_narrowing o) eqn:TN; eauto using str_leaf_good;
+          exact (G_scalar ltac:(discriminate) _ _ H).
       - destruct (unwrap P_read_array_unwrap (read_array t v)) as [arr| | | |]; cbn [obind] in H; try discriminate.
         destruct (Nat.ltb (a_start arr) (a_end arr)); try discriminate.
         destruct (next_idx_values t (a_start arr)) as [n1| | | |]; cbn [obind] in H; try discriminate.
@@ -310,37 +309,108 @@ Section Good.
         destruct (next_idx_values t n1) as [n2| | | |]; cbn [obind] in H; try discriminate.
         destruct (unwrap P_header_str_unwrap (read_str dec t (a_start arr))) as [ks| | | |] eqn:KS; cbn [obind] in H; try discriminate.
         destruct (rec n1) as [j1| | | |] eqn:R1; cbn [obind] in H; try discriminate.
-        inversion H; subst. apply good_obj1; [|eauto].
+        inversion H; subst. apply G_obj1; [|eauto].
         apply unwrap_ok in KS. eapply read_str_valid; eauto.
     Qed.
   End Open.
 
-  Lemma ser_value_good : forall fuel v j, ser_value dec dbg o t fuel v = Ok j -> good j.
+  Lemma ser_value_good : forall fuel v j, ser_value dec dbg o t fuel v = Ok j -> G j.
   Proof.
     induction fuel as [|f IH]; intros v j H; cbn [ser_value] in H; [discriminate|].
     eapply step_good; [|exact H]. exact IH.
   Qed.
 
-  Theorem json_value_good : forall v j, json_value dec dbg o t v = Ok j -> good j.
+  Theorem json_value_G : forall v j, json_value dec dbg o t v = Ok j -> G j.
   Proof.
     intros v j H. unfold json_value in H.
     destruct (value_tokens_len t v); cbn [obind] in H; try discriminate. eapply ser_value_good; eauto.
   Qed.
 
-  Theorem json_object_good : forall r j, json_object dec dbg o t r = Ok j -> good j.
+  Theorem json_object_G : forall r j, json_object dec dbg o t r = Ok j -> G j.
   Proof.
     intros r j H. unfold json_object in H.
     destruct (object_tokens_len r); cbn [obind] in H; try discriminate.
     eapply object_builder_good; [|exact H]. intros ? ?. apply ser_value_good.
   Qed.
 
-  Theorem json_array_good : forall r j, json_array dec dbg o t r = Ok j -> good j.
+  Theorem json_array_G : forall r j, json_array dec dbg o t r = Ok j -> G j.
   Proof.
     intros r j H. unfold json_array in H.
     destruct (array_tokens_len r); cbn [obind] in H; try discriminate.
     eapply array_builder_good; [|exact H]. intros ? ?. apply ser_value_good.
   Qed.
 End Good.
+
+(* ---------------------------------------------------------------- instance 1: good trees *)
+Section GoodInst.
+  Variable dec : bytes -> bytes.
+  Variable dbg : bool.
+  Variable o : options.
+  Variable t : ttape.
+  Hypothesis DV : forall raw, valid_utf8 (dec raw) = true.
+
+  Lemma serialize_scalar_good : forall v j, serialize_scalar dec t v = Ok j -> good j.
+  Proof.
+    intros v j H. pose proof H as H0. unfold serialize_scalar in H.
+    destruct (unwrap P_scalar_unwrap (read_scalar t v)) as [s| | | |] eqn:RS; cbn [obind] in H; try discriminate.
+    apply unwrap_ok in RS. pose proof (narrowing_spec dec t v s j RS H0) as NS.
+    destruct j; try contradiction.
+    - apply good_bool.
+    - apply good_i64. tauto.
+    - apply good_u64. tauto.
+    - apply good_f64.
+    - apply good_str. destruct NS as (_ & _ & R). eapply read_str_valid; eauto.
+  Qed.
+
+  Theorem json_value_good : forall v j, json_value dec dbg o t v = Ok j -> good j.
+  Proof. apply json_value_G; auto using good_null, good_str, good_arr, good_obj. intros _. apply serialize_scalar_good. Qed.
+  Theorem json_object_good : forall r j, json_object dec dbg o t r = Ok j -> good j.
+  Proof. apply json_object_G; auto using good_null, good_str, good_arr, good_obj. intros _. apply serialize_scalar_good. Qed.
+  Theorem json_array_good : forall r j, json_array dec dbg o t r = Ok j -> good j.
+  Proof. apply json_array_G; auto using good_null, good_str, good_arr, good_obj. intros _. apply serialize_scalar_good. Qed.
+End GoodInst.
+
+(* ---------------------------------------------------------------- instance 2: TypeNarrowing::None *)
+(* the number of leaves narrowed to a boolean or a number *)
+Fixpoint narrowed_leaves (j : json) : nat :=
+  match j with
+  | JBool _ | JI64 _ | JU64 _ | JF64 _ => 1
+  | JArr l => list_sum (map narrowed_leaves l)
+  | JObj l => list_sum (map (fun kv => match kv with (_, v) => narrowed_leaves v end) l)
+  | _ => 0
+  end.
+
+Definition unnarrowed (j : json) : Prop := narrowed_leaves j = 0.
+
+Lemma unnarrowed_arr : forall l, Forall unnarrowed l -> unnarrowed (JArr l).
+Proof.
+  intros l F. unfold unnarrowed. cbn [narrowed_leaves]. induction F; cbn [map list_sum]; auto.
+  unfold unnarrowed in H. rewrite H. cbn [plus]. exact IHF.
+Qed.
+
+Lemma unnarrowed_obj : forall l, Forall (fun kv => valid_utf8 (fst kv) = true /\ unnarrowed (snd kv)) l -> unnarrowed (JObj l).
+Proof.
+  intros l F. unfold unnarrowed. cbn [narrowed_leaves]. induction F; cbn [map list_sum]; auto.
+  destruct x as [k v]. cbn [snd] in H. destruct H as [_ H]. unfold unnarrowed in H. rewrite H. cbn [plus]. exact IHF.
+Qed.
+
+Section NoneInst.
+  Variable dec : bytes -> bytes.
+  Variable dbg : bool.
+  Variable o : options.
+  Variable t : ttape.
+  Hypothesis DV : forall raw, valid_utf8 (dec raw) = true.
+  Hypothesis NN : type_narrowing o = NarrowNone.
+
+  Theorem json_value_unnarrowed : forall v j, json_value dec dbg o t v = Ok j -> unnarrowed j.
+  Proof. apply json_value_G; auto using unnarrowed_arr, unnarrowed_obj; try reflexivity. intro C. contradiction. Qed.
+  Theorem json_object_unnarrowed : forall r j, json_object dec dbg o t r = Ok j -> unnarrowed j.
+  Proof. apply json_object_G; auto using unnarrowed_arr, unnarrowed_obj; try reflexivity. intro C. contradiction. Qed.
+  Theorem json_array_unnarrowed : forall r j, json_array dec dbg o t r = Ok j -> unnarrowed j.
+  Proof. apply json_array_G; auto using unnarrowed_arr, unnarrowed_obj; try reflexivity. intro C. contradiction. Qed.
+End NoneInst.
+
+
 
 (* ================================================================ end to end *)
 (* the contract of the two parameters: the float printer emits an ASCII JSON number for every finite
@@ -412,4 +482,22 @@ Proof.
   replace (Nat.ltb (S v) (S e')) with true by (symmetry; apply Nat.ltb_lt; lia).
   rewrite (next_idx_values_cont _ _ _ _ K' CE). cbn [obind].
   unfold read_str, value_token. rewrite (tok_at_some _ _ _ _ K). cbn [obind unwrap]. reflexivity.
+Qed.
+
+(* ================================================================ which tokens the narrowing option reaches *)
+Theorem narrowing_applies_exactly : forall dec dbg o t rec v k, TapeWf.tget t v = Some k ->
+  match k with
+  | TUnquoted s =>
+      ser_value_step dec dbg o t rec v =
+      match type_narrowing o with NarrowNone => Ok (JStr (dec s)) | _ => serialize_scalar dec t v end
+  | TQuoted s =>
+      ser_value_step dec dbg o t rec v =
+      match type_narrowing o with NarrowAll => serialize_scalar dec t v | _ => Ok (JStr (dec s)) end
+  | _ => True
+  end.
+Proof.
+  intros dec dbg o t rec v k K. destruct k; auto;
+    unfold ser_value_step, value_token; rewrite (tok_at_some _ _ _ _ K); cbn [obind];
+    destruct (type_narrowing o); auto;
+    unfold read_str, value_token; rewrite (tok_at_some _ _ _ _ K); reflexivity.
 Qed.
